@@ -1,0 +1,12 @@
+//go:build verif
+
+package protocols
+
+// Contracts for the protocol-independent header interface (used by property C06). Comment-only file.
+
+/*@
+// a header object writes only into header maps (for HTTP: the net/http header map it wraps)
+iface (h Header) Set(key string, value interface{})
+  flag allocates
+  modifies allof("map<string,[]string>#dom"), allof("map<string,[]string>#card"), allof("map<string,[]string>#val#arr"), allof("map<string,[]string>#val#len"), allof("map<string,[]string>#val#cap"), allof("elem<string>")
+@*/
